@@ -3,7 +3,7 @@
    implementation answered for ==, hash, partial_cmp, <, <=, as_bool and the two casts.
      1  = the model of Value.v predicts something else
      2  = the observations violate one of the laws of the property (stated on the observations,
-          not on the model): reflexivity on the stated domain, symmetry, eq -> same hash,
+          not on the model): reflexivity, symmetry, eq -> same hash,
           eq -> neither less nor greater, asymmetry, numeric order, length order, transitivity
      3  = ill-formed case (harness bug)
      10 = Integer vs Real comparison differs from the numeric order and an integer operand has
@@ -24,7 +24,7 @@ Definition tstr (bs : list N) : tval := TStr bs.
 Definition ttab (l : list (tval * tval)) : tval := TTable l.
 Definition tfn (h a : N) : tval := TFn h a.
 Definition tnat (h : N) : tval := TNative h.
-Definition tclo (h a : N) : tval := TClosure h a.
+Definition tclo (id h a : N) : tval := TClosure id h a.   (* id: the closure objects of a case, numbered in first-seen order *)
 
 (* what the implementation says about one value *)
 Record vobs := vo {
@@ -71,7 +71,7 @@ Fixpoint twf (a : tval) : bool :=
          | [] => true
          | (k, v) :: r => twf k && twf v && go r
          end) l
-  | TFn h ar | TClosure h ar => (h <? two32) && (ar <? two32)
+  | TFn h ar | TClosure _ h ar => (h <? two32) && (ar <? two32)
   | TNative h => h <? two32
   end.
 
@@ -125,34 +125,25 @@ Definition law_length (a b : tval) (cab : option comparison) : list N :=
 
 Definition flag (ok : bool) : list N := if ok then [] else [2].
 
-(* A violation of eq -> same hash, or of transitivity, in which a function object occurs inside
-   one of the values (a table keyed by a function object: the entry is counted by len() and
-   skipped by iter(), see C19_fn_key_eq_hash_refuted).  Not an exception of the property text
-   and not a finding listed in DESIGN.md, hence reported as 2; if the maintainer records it as
-   a known finding, this is the one place to give it its own code. *)
-Definition code_fn_inside : N := 2.
-Definition flag_fn (has_fn ok : bool) : list N :=
-  if ok then [] else if has_fn then [code_fn_inside] else [2].
 Definition implb' (p q : bool) : bool := if p then q else true.
 
 Definition check1 (c : c19case) : list N :=
   match c with
   | CPair a b oa ob eab eba cab cba ltab leab =>
-      (if twf a && twf b then [] else [3]) ++
+      (if twf a && twf b && coherentb (tclos a ++ tclos b) then [] else [3]) ++
       (if model_value a oa && model_value b ob &&
           Bool.eqb (teq a b) eab && Bool.eqb (teq b a) eba &&
           ocmp_eqb (tcmp a b) cab && ocmp_eqb (tcmp b a) cba &&
           Bool.eqb (tlt a b) ltab && Bool.eqb (tle a b) leab
        then [] else [1]) ++
-      (* reflexivity on nil, integers, non-NaN reals, strings and tables of those *)
-      flag (implb' (tclean a) (o_eqself oa)) ++
-      flag (implb' (tclean b) (o_eqself ob)) ++
+      (* reflexivity; exception of the text: NaN *)
+      flag (implb' (no_nan a) (o_eqself oa)) ++
+      flag (implb' (no_nan b) (o_eqself ob)) ++
       (* symmetry *)
       flag (Bool.eqb eab eba) ++
       (* equal values hash equally; exceptions of the text: NaN, signed zero *)
-      flag_fn (negb (no_fn a && no_fn b))
-              (implb' (eab && no_nan a && no_nan b && no_zero_real a && no_zero_real b)
-                      (o_hash oa =? o_hash ob)) ++
+      flag (implb' (eab && no_nan a && no_nan b && no_zero_real a && no_zero_real b)
+                   (o_hash oa =? o_hash ob)) ++
       (* equal values are neither less nor greater *)
       flag (implb' eab (not_ltgt cab && not_ltgt cba)) ++
       (* asymmetry *)
@@ -166,13 +157,12 @@ Definition check1 (c : c19case) : list N :=
       (* two strings / two tables by length *)
       law_length a b cab ++ law_length b a cba
   | CTriple a b c eab ebc eac cab cbc cac =>
-      (if twf a && twf b && twf c then [] else [3]) ++
+      (if twf a && twf b && twf c && coherentb (tclos a ++ tclos b ++ tclos c) then [] else [3]) ++
       (if Bool.eqb (teq a b) eab && Bool.eqb (teq b c) ebc && Bool.eqb (teq a c) eac &&
           ocmp_eqb (tcmp a b) cab && ocmp_eqb (tcmp b c) cbc && ocmp_eqb (tcmp a c) cac
        then [] else [1]) ++
       (* transitivity; exception of the text: NaN *)
-      flag_fn (negb (no_fn a && no_fn b && no_fn c))
-              (implb' (eab && ebc && no_nan a && no_nan b && no_nan c) eac) ++
+      flag (implb' (eab && ebc && no_nan a && no_nan b && no_nan c) eac) ++
       flag (implb' (eab && ebc && eac) (not_ltgt cac))
   | CPanic _ => [2]
   end.
